@@ -140,7 +140,7 @@ PROPS = {
         "modelled": ["in-session and session-less retry loops, layer (re)initialisation, LayersDecoder chain, sequence counter: hand models tied by byte-exact correspondence"],
         "assumptions": ["a Send that fails before anything leaves the socket is outside the outcome alphabet (it still consumes a number, which is the safe choice)"],
     },
-    "C01": {'claim': "LIVENESS handshake_succeeds / keys_agree / transmits_spec_datagrams: against the specification's BMC (Spec/Bmc.lean: Open Session Response, RAKP 2, "
+    "C01": {'claim': "COMMANDS ANSWERED command_answered / all_commands_answered (console || conforming in-session BMC of Spec/BmcSession.lean, for command histories of ANY length): every datagram the console model transmits for any well-posed command passes the BMC's integrity check, decryption, pad and checksum tests, is read as exactly the caller's command with the next sequence number, and the BMC's response datagram - whatever its handler answers - is accepted and the caller receives exactly that completion code and data (response_returned); every lawful crypto, key set, counters, IVs. The Lean BMC is tied to the harness's reference BMC and to the real library by scenario bmcspec (bmcopen on real datagrams and corruptions, bmcseal fed to the real SendCommand). LIVENESS handshake_succeeds / keys_agree / transmits_spec_datagrams: against the specification's BMC (Spec/Bmc.lean: Open Session Response, RAKP 2, "
           'RAKP 4 as datagrams written from Appendix H, keys derived from the fields it received) holding the same password and KG, for EVERY supported suite '
           '(auth 1..3, integrity 1/2/4, AES), user name <= 16 bytes, privilege nibble, lookup mode, password, KG, console random, BMC session ID/random/GUID '
           "and EVERY hash function whose outputs fit a datagram (no crypto law needed), newSession transmits exactly three datagrams - the specification's "
@@ -160,7 +160,7 @@ PROPS = {
               'verdicts',
  'ref': '§5 C01',
  'proofs': ['Bmc.Proofs.C01'],
- 'scenarios': ['hs', 'send'],
+ 'scenarios': ['hs', 'send', 'bmcspec'],
  'rule': 'hs: 9 suites x 6 (thorough 60) credential sets (user 0..16 bytes, password 0..20, KG absent/20 bytes, both lookup modes, privilege 0..5) as honest '
          'transcripts of the reference BMC; other BMC password / KG; per authentication algorithm every status in a sample (thorough: all 1..255), other tags, '
          'every 3rd (thorough: every) single-bit flip and every truncation length (consistent and inconsistent wrapper length) and 1-3 byte extensions of each '
